@@ -752,6 +752,12 @@ class DAGRunConcurrentManager(DAGRunManagerLike):
 
             if has_errors:
                 logger.debug('The subgraph should be stopped. There is an error in %s', name)
+
+                if dag.is_oneof:
+                    # Inside a OneOf branch the error is stored as a node result, so the task that waits for
+                    # the branch has to be woken up explicitly
+                    await self.__unlock_itself(dag.dest)
+
                 return
 
             if not is_rec_result and not has_errors:
